@@ -69,6 +69,17 @@ def stopRun (s : St) (err : Bool) : St :=
 theorem stop_eq (s : St) (err : Bool) :
     s.stop err = if s.status = .stopping ∨ s.status = .stopped then s else stopRun s err := rfl
 
+/-! ### `start` in named pieces -/
+
+/-- A start while the torrent is stopping closes the stop announcer and finishes the stop (fix C04-F3). -/
+def startPre (m : M) : M :=
+  if m.1.stopAnn then handleStopped (onSt m fun s => { s with stopHang := false }) else m
+
+/-- `start` once no stop announcer is left: nothing if the torrent runs, `startCore` otherwise. -/
+def startGo (m : M) : M := if m.1.errC then m else startCore m
+
+theorem start_eq (m : M) : start m = startGo (startPre m) := rfl
+
 /-! ### `handlePieceWriteDone` in named pieces -/
 
 def pwdReset (m : M) (w : WriteJob) : M :=
